@@ -10,8 +10,9 @@ PROVED
          `analyze_total_flat_partial`; machinery in `Proofs/ColumnsExact.lean`): for `INSERT INTO T <q>` (no column list),
          `CREATE TABLE T AS <q>`, `CREATE VIEW T AS <q>` (no column list) without metadata provider, `<q>` ONE select block
          over base tables (comma list and joins, any aliases; it may read `T` itself), no subquery anywhere, column
-         references qualified (by anything), unqualified over a single table reference (resolved to it) or unqualified over
-         several relations (left unresolved): `analyze` succeeds and the LINEAGE edges of the statement holder are EXACTLY the
+         references qualified (by anything), unqualified over a single table reference (resolved to it), unqualified over
+         several relations (left unresolved) or an unqualified `*` over several relations (one `<relation>.*` each):
+         `analyze` succeeds and the LINEAGE edges of the statement holder are EXACTLY the
          pairs of the specification `ColumnsExact.specPairs` (a function of the AST alone), the HAS_COLUMN edges exactly the
          owner edges of these pairs, the HAS_ALIAS edges exactly those of the table references, and there is no other edge.
          The proof follows `analyze` → `exWriteQuery` → `exQuery` → `finishBranches` → `endOfQueryCleanup` → `cleanupGroup` →
@@ -219,7 +220,9 @@ The fragment `ColumnsExact.fragStmt env s` (a decidable predicate on the AST):
         happens otherwise);
       – or unqualified over exactly one table reference: it is a column of that table;
       – or unqualified, not `*`, over names denoting at least two different relations (`twoRelations`): it is left
-        UNRESOLVED — the source is the column without owner, `Node.col c none`, never a guess.
+        UNRESOLVED — the source is the column without owner, `Node.col c none`, never a guess;
+      – or an unqualified `*` over several table references: one source `<relation>.*` per relation the FROM clause
+        denotes (`denoted`), all wired to the item's column (`T.*` when the item has no alias).
   * the block may read the table it writes.
 
 No metadata provider (`env.prov.truthy = false`); every `env.revStar`, default schema, render option.
@@ -248,14 +251,15 @@ theorem pairs_exact_flat_partial (env : Env) (silent : Bool) (s : Stmt) (g : LGr
   cases hg'
   exact hx.lineage u v
 
-/-- the same with the specification written out: one pair per column reference of each select item; the source is the
-    referenced column of the relation the reference denotes (`srcCol`), the target the item's column of the written table
-    (`tgtCol`, named by `colSpecOf`: alias, else the column's own name, else the expression text) -/
+/-- the same with the specification written out: for each column reference of each select item, the source keys it denotes
+    (`srcKeys`: the key of `srcCol` — the referenced column of the relation the reference denotes — and for an unqualified `*`
+    over several relations one `<relation>.*` each), the target the item's column of the written table (`tgtCol`, named by
+    `colSpecOf`: alias, else the column's own name, else the expression text) -/
 theorem pairs_exact_flat_unfolded_partial (env : Env) (silent : Bool) (s : Stmt) (g : LGraph) (hp : env.prov.truthy = false)
     (hs : fragStmt env s = true) (h : analyze env silent s = .ok g) (u v : Node) :
     ((u, v) ∈ g.edges ∧ g.ety u v = some .lineage) ↔
       ∃ e a k, Item.mk e a k ∈ stmtItems s ∧ ∃ r ∈ refs e,
-        u = (srcCol env.importDefault (fromTabs env (stmtFrom s)) (normRef r)).key ∧
+        u ∈ srcKeys env.importDefault (fromTabs env (stmtFrom s)) (normRef r) ∧
         v = (tgtCol env (stmtTarget s) (.mk e a k)).key := by
   rw [pairs_exact_flat_partial env silent s g hp hs h, mem_specPairs]
 
@@ -364,7 +368,7 @@ theorem pairs_exact_collist_unfolded_partial (env : Env) (silent : Bool) (s : St
     (hp : env.prov.truthy = false) (hs : fragStmtCols env s = true) (h : analyze env silent s = .ok g) (u v : Node) :
     ((u, v) ∈ g.edges ∧ g.ety u v = some .lineage) ↔
       ∃ e a k c, (Item.mk e a k, c) ∈ (stmtItems s).zip (stmtCols s) ∧ ∃ r ∈ refs e,
-        u = (srcCol env.importDefault (fromTabs env (stmtFrom s)) (normRef r)).key ∧
+        u ∈ srcKeys env.importDefault (fromTabs env (stmtFrom s)) (normRef r) ∧
         v = .col ((mkTable env (stmtTarget s) none).printed ++ "." ++ Ident.escapeS c)
               (some (mkTable env (stmtTarget s) none).d) := by
   rw [pairs_exact_collist_partial env silent s g hp hs h, mem_specPairsPos]
@@ -422,6 +426,21 @@ theorem spec_source_key_qualified (imp : String) (tabs : List DObj) (c q : Strin
 theorem spec_source_key_unqualified (imp : String) (t : DObj) (ht : t.d.isTable = true) (c : String) :
     (srcCol imp [t] (c, none)).key = .col (t.printed ++ "." ++ c) (some t.d) :=
   srcCol_key_unqualified imp t ht c
+
+/-- the source keys of a qualified reference / of an unqualified reference over one table reference: the key of `srcCol` -/
+theorem spec_source_keys_qualified (imp : String) (tabs : List DObj) (c q : String) :
+    srcKeys imp tabs (c, some q) = [(srcCol imp tabs (c, some q)).key] := srcKeys_qualified imp tabs c q
+
+theorem spec_source_keys_single (imp : String) (t : DObj) (c : String) :
+    srcKeys imp [t] (c, none) = [(srcCol imp [t] (c, none)).key] := srcKeys_single imp t c
+
+/-- an unqualified non‑star reference over several table references: ONE source, the column without owner -/
+theorem spec_source_keys_unresolved (imp : String) (tabs : List DObj) (h : tabs.length ≠ 1) (c : String) (hc : c ≠ "*") :
+    srcKeys imp tabs (c, none) = [.col c none] := srcKeys_unresolved imp tabs h c hc
+
+/-- an unqualified `*` over several table references: `<relation>.*` of every relation the FROM clause denotes -/
+theorem spec_source_keys_star (imp : String) (tabs : List DObj) (h : tabs.length ≠ 1) :
+    srcKeys imp tabs ("*", none) = (denoted tabs).map starKey := srcKeys_star imp tabs h
 
 /-- source column key of an unqualified reference over SEVERAL table references: the column without owner — the reference is
     left unresolved, never attributed to one of the tables -/
@@ -489,6 +508,16 @@ def exCols : Stmt :=
        .mk (.bin "+" (.col [] "b") (.col [] "c")) (some "f") true]
       [.mk (.table ["s1", "t1"] (some "x") false) []] none [] none) false
 
+/-- `create view v as select *, a.k as k2 from s.ta a join s.tb b on a.k = b.k`: the `*` stands for `s.ta.*` and `s.tb.*` -/
+def exStarJoin : Stmt :=
+  .createView ["v"] false none
+    (.select false
+      [.mk (.star []) none false,
+       .mk (.col ["a"] "k") (some "k2") true]
+      [.mk (.table ["s", "ta"] (some "a") false)
+        [.mk "join" (.table ["s", "tb"] (some "b") false) (some (.bin "=" (.col ["a"] "k") (.col ["b"] "k"))) []]]
+      none [] none)
+
 /-- the LINEAGE edges of an analysis result, in graph order -/
 def lineageEdges (r : Except Err LGraph) : List (Node × Node) :=
   match r with
@@ -542,6 +571,17 @@ example : lineageEdges (analyze {} false exSelf) =
 
 example : specPairs {} (stmtTarget exSelf) (stmtItems exSelf) (stmtFrom exSelf) =
     lineageEdges (analyze {} false exSelf) := by decide +kernel
+
+example : fragStmt {} exStarJoin = true := by decide +kernel
+
+example : lineageEdges (analyze {} false exStarJoin) =
+    [(.col "s.ta.*" (some (.table "s" "ta")), .col "<default>.v.*" (some (.table "<default>" "v"))),
+     (.col "s.tb.*" (some (.table "s" "tb")), .col "<default>.v.*" (some (.table "<default>" "v"))),
+     (.col "s.ta.k" (some (.table "s" "ta")), .col "<default>.v.k2" (some (.table "<default>" "v")))] := by
+  decide +kernel
+
+example : specPairs {} (stmtTarget exStarJoin) (stmtItems exStarJoin) (stmtFrom exStarJoin) =
+    lineageEdges (analyze {} false exStarJoin) := by decide +kernel
 
 example : fragStmtCols {} exCols = true := by decide +kernel
 
@@ -623,8 +663,7 @@ end endToEnd
   Proved: the restrictions `pairs_exact_flat_partial` (§5) to `ColumnsExact.fragStmt` and `pairs_exact_collist_partial` to
   `ColumnsExact.fragStmtCols`, stated on the LINEAGE edges of the statement holder `analyze env silent s` against
   `ColumnsExact.specPairs` / `specPairsPos`.  Missing for the full statement:
-    * inside one flat block: an unqualified `*` over several relations (one source per relation, in `amValues` order),
-      unqualified references over several table references that all denote the SAME relation, ambiguous written aliases,
+    * inside one flat block: unqualified references over several table references that all denote the SAME relation, ambiguous written aliases,
       a qualifier denoting a written table that is not read (`dev_unknown_qualifier_positional`: the model and the code
       wire by position there);
     * a column list whose length differs from the number of select items or that goes with a self‑reading statement, a
